@@ -304,21 +304,47 @@ Proof.
 Qed.
 
 Lemma episodes_ok_model : forall xs os,
-  corr_b (C9 xs os) = true -> episodes_ok (cids_of xs) xs os = true.
+  corr_core xs os = true -> episodes_ok (cids_of xs) xs os = true.
 Proof.
-  intros xs os H. simpl in H. unfold episodes_ok. destruct os as [|o os]; [reflexivity|].
+  intros xs os H. unfold corr_core in H. unfold episodes_ok. destruct os as [|o os]; [reflexivity|].
   apply forallb_forall. intros k Hk. apply in_seq in Hk.
   apply forallb_forall. intros c Hc.
   apply (corr_run_ord_hist (cids_of xs) (length (ob_bal o)) (length (ob_inst o)) k c xs engine0);
     auto; try lia.
 Qed.
 
-Theorem oracle_no_stricter_than_model : forall c, corr_b c = true -> prop_b c = true.
+Lemma core_sound : forall xs os, corr_core xs os = true -> prop_core xs os = true.
 Proof.
-  intros [xs os|] H; [|discriminate].
-  unfold prop_b. apply andb_true_intro. split.
-  - simpl in H. destruct os as [|o os].
+  intros xs os H. unfold prop_core. apply andb_true_intro. split.
+  - unfold corr_core in H. destruct os as [|o os].
     + destruct xs; [reflexivity|discriminate].
     + apply (corr_run_prop_run _ (length (ob_bal o)) (length (ob_inst o)) xs [] (o :: os)). exact H.
   - apply episodes_ok_model. exact H.
+Qed.
+
+Theorem oracle_no_stricter_than_model : forall c, corr_b c = true -> prop_b c = true.
+Proof.
+  intros [xs os|] H; [|discriminate]. simpl in *.
+  destruct (strip9 None xs os) as [[evs l]|]; [|discriminate]. apply core_sound. exact H.
+Qed.
+
+(* ---- persist / restore steps ---------------------------------------------------------------------- *)
+
+(** runs are invariant under inserting persist / restore steps anywhere *)
+Theorem persist_invariant : forall xs e, fold_left xstep9 xs e = erun9 (evs_of xs) e.
+Proof.
+  induction xs as [|[x|b] xs IH]; intros e; simpl; auto.
+Qed.
+
+(** what the judge runs the model on is the case's step list without its persist steps *)
+Lemma strip9_evs : forall xs prev os evs l,
+  strip9 prev xs os = Some (evs, l) -> evs = evs_of xs.
+Proof.
+  induction xs as [|[x|b] xs IH]; intros prev os evs l H; destruct os as [|cur os];
+    simpl in H; try discriminate.
+  - injection H as <- <-. reflexivity.
+  - destruct (strip9 (Some cur) xs os) as [[evs' l']|] eqn:E; [|discriminate].
+    injection H as <- <-. simpl. f_equal. eapply IH; eauto.
+  - destruct (b && match prev with Some p => obs_eqb p cur | None => true end); [|discriminate].
+    simpl. eapply IH; eauto.
 Qed.
